@@ -1,7 +1,8 @@
 //! Domain `annot` (C06): sheet list and annotations across save + reload.
 //!
 //! case = {"case": id, "steps": [ {"a":"Init","sheets":["S1","T2"]}, {"a":"AddLink","s":1,"cell":"B2","url":"..","loc":false},
-//!                                {"a":"AddComment","s":1,"r":2,"c":3,"author":"..","text":".."},
+//!                                {"a":"AddComment","s":1,"r":2,"c":3,"author":"..","runs":[{"t":"Ann:","b":true},{"t":"\n text ","b":false}]},
+//!                                {"a":"SetCodeName","s":1,"code":".."}, {"a":"SetMacros"},
 //!                                {"a":"AddName","home":0|sheet,"name":"..","addr":"'S1'!$A$1","ref":"S1","local":-1|k,"hidden":false},
 //!                                .. (AddSheet Rename RemoveSheet SetState SetActive AddMerge AddDv AddCf SetAf SetTab SetView
 //!                                    SetPageSetup SetHf SetProt SetWbProt: see `apply`) .., {"a":"SaveLoad","light":false} ]}
@@ -63,7 +64,8 @@ fn project_sheet(ws: &Worksheet) -> Value {
     let mut links = vec![];
     for c in ws.get_cell_collection_sorted() {
         if let Some(h) = c.get_hyperlink() {
-            links.push(json!({"cell": c.get_coordinate().get_coordinate(), "url": h.get_url(), "loc": *h.get_location()}));
+            links.push(json!({"cell": c.get_coordinate().get_coordinate(), "url": h.get_url(), "loc": *h.get_location(),
+                               "tip": h.get_tooltip()}));
         }
     }
     let comments: Vec<Value> = ws
@@ -154,7 +156,8 @@ fn project_sheet(ws: &Worksheet) -> Value {
         })
         .collect();
     let names: Vec<Value> = ws.get_defined_names().iter().map(name_of).collect();
-    json!({"name": ws.get_name(), "state": ws.get_state().get_value_string(),
+    let code: Vec<Value> = ws.get_code_name().iter().map(|c| json!(c)).collect();
+    json!({"name": ws.get_name(), "state": ws.get_state().get_value_string(), "code": code,
            "merges": merges, "links": links, "comments": comments, "dvs": dvs, "cfs": cfs, "af": af, "tab": tab,
            "views": views,
            "ps": {"paper": *ps.get_paper_size() as i64, "orient": ps.get_orientation().get_value_string(),
@@ -212,6 +215,7 @@ fn chars_table(p: &Value) -> Value {
         names_of(&mut seen, &sh["names"]);
         for l in sh["links"].as_array().unwrap() {
             add(&mut seen, &l["url"]);
+            add(&mut seen, &l["tip"]);
         }
         for d in sh["dvs"].as_array().unwrap() {
             for k in ["ptitle", "prompt", "etitle", "emsg"] {
@@ -296,7 +300,22 @@ fn apply(book: &mut Spreadsheet, st: &Value) -> Result<(), String> {
             let mut c = Comment::default();
             c.new_comment((u(st, "c"), u(st, "r")));
             c.set_author(s(st, "author"));
-            c.set_text_string(s(st, "text"));
+            // the text as a list of runs {"t": text, "b": bold}: one run is set as a plain string, several as rich text
+            let runs = st["runs"].as_array().ok_or("runs")?;
+            if runs.len() == 1 && !bo(&runs[0], "b") {
+                c.set_text_string(s(&runs[0], "t"));
+            } else {
+                let mut rich = RichText::default();
+                for r in runs {
+                    let mut el = TextElement::default();
+                    el.set_text(s(r, "t"));
+                    if bo(r, "b") {
+                        el.get_font_mut().set_bold(true);
+                    }
+                    rich.add_rich_text_elements(el);
+                }
+                c.set_text(rich);
+            }
             ws.add_comments(c);
         }
         "AddName" => {
@@ -373,6 +392,13 @@ fn apply(book: &mut Spreadsheet, st: &Value) -> Result<(), String> {
         }
         "SetAf" => {
             sheet(book, st)?.set_auto_filter(s(st, "range"));
+        }
+        "SetCodeName" => {
+            sheet(book, st)?.set_code_name(s(st, "code"));
+        }
+        "SetMacros" => {
+            // any payload makes the workbook one "with macros": every sheet is then written with a code name
+            book.set_macros_code(vec![0x56u8, 0x42, 0x41, 0x00, 0x01, 0x02, 0x03]);
         }
         "SetTab" => {
             sheet(book, st)?.get_tab_color_mut().set_argb(s(st, "argb"));
